@@ -436,7 +436,7 @@ func gen(r *sim.Rng, tier string) *sim.Case {
 	if r.Pct(50) {
 		c.Sched.TickPct = []int{2, 10, 30}[r.N(3)]
 	}
-	if r.Pct(3) {
+	if r.Pct(5) {
 		// a slow observer: one thread makes a single read-only call and is descheduled between
 		// its loads, each time for as long as several operations of a busy thread take; small
 		// ring, counters often just below 2^32
